@@ -16,6 +16,7 @@ type Tok struct {
 	S    string
 	Kind byte // 'i' identifier, 'n' number, 's' string, 'o' operator/punctuation
 	Line int
+	Col  int // 1-based column of the first character (0 for synthetic tokens)
 }
 
 func (t Tok) String() string { return t.S }
@@ -37,12 +38,14 @@ func Lex(src string, startLine int) ([]Tok, error) {
 	line := startLine
 	i := 0
 	n := len(src)
+	lineStart := 0 // index of the first character of the current line
 	for i < n {
 		c := src[i]
 		switch {
 		case c == '\n':
 			line++
 			i++
+			lineStart = i
 		case c == ' ' || c == '\t' || c == '\r' || c == '\f':
 			i++
 		case c == '\\' && i+1 < n && src[i+1] == '*':
@@ -67,6 +70,7 @@ func Lex(src string, startLine int) ([]Tok, error) {
 				}
 				if src[i] == '\n' {
 					line++
+					lineStart = i + 1
 				}
 				i++
 			}
@@ -81,13 +85,14 @@ func Lex(src string, startLine int) ([]Tok, error) {
 				}
 				if j < n && src[j] == '\n' {
 					line++
+					lineStart = j + 1
 				}
 				j++
 			}
 			if j >= n {
 				return nil, fmt.Errorf("line %d: unterminated string", line)
 			}
-			out = append(out, Tok{src[i : j+1], 's', line})
+			out = append(out, Tok{src[i : j+1], 's', line, i - lineStart + 1})
 			i = j + 1
 		case isDigit(c):
 			j := i
@@ -99,9 +104,9 @@ func Lex(src string, startLine int) ([]Tok, error) {
 				for j < n && isIdentPart(src[j]) {
 					j++
 				}
-				out = append(out, Tok{src[i:j], 'i', line})
+				out = append(out, Tok{src[i:j], 'i', line, i - lineStart + 1})
 			} else {
-				out = append(out, Tok{src[i:j], 'n', line})
+				out = append(out, Tok{src[i:j], 'n', line, i - lineStart + 1})
 			}
 			i = j
 		case isIdentStart(c):
@@ -109,21 +114,21 @@ func Lex(src string, startLine int) ([]Tok, error) {
 			for j < n && isIdentPart(src[j]) {
 				j++
 			}
-			out = append(out, Tok{src[i:j], 'i', line})
+			out = append(out, Tok{src[i:j], 'i', line, i - lineStart + 1})
 			i = j
 		case c == '$' && i+1 < n && isIdentStart(src[i+1]):
 			j := i + 1
 			for j < n && isIdentPart(src[j]) {
 				j++
 			}
-			out = append(out, Tok{src[i:j], 'i', line})
+			out = append(out, Tok{src[i:j], 'i', line, i - lineStart + 1})
 			i = j
 		case c == '\\' && i+1 < n && isIdentStart(src[i+1]):
 			j := i + 1
 			for j < n && isIdentStart(src[j]) {
 				j++
 			}
-			out = append(out, Tok{src[i:j], 'o', line})
+			out = append(out, Tok{src[i:j], 'o', line, i - lineStart + 1})
 			i = j
 		default:
 			matched := false
@@ -136,20 +141,20 @@ func Lex(src string, startLine int) ([]Tok, error) {
 							j++
 						}
 						if j-i >= 4 {
-							out = append(out, Tok{src[i:j], 'o', line})
+							out = append(out, Tok{src[i:j], 'o', line, i - lineStart + 1})
 							i = j
 							matched = true
 							break
 						}
 					}
-					out = append(out, Tok{op, 'o', line})
+					out = append(out, Tok{op, 'o', line, i - lineStart + 1})
 					i += len(op)
 					matched = true
 					break
 				}
 			}
 			if !matched {
-				out = append(out, Tok{string(c), 'o', line})
+				out = append(out, Tok{string(c), 'o', line, i - lineStart + 1})
 				i++
 			}
 		}
